@@ -122,6 +122,18 @@ CLAIMED = {
          "main theorem: a handler's own Content-Length is truthful; trusted: Coq kernel, extraction, lib/srv.py, python strict parser",
     technique="Coq proof over executable model + differential correspondence (extracted OCaml vs real lighttpd over loopback, fault-injected) + strict RFC 9112 parser monitor",
     design="5/C04"),
+ "C11": dict(
+    text="Coq theorems over an executable state machine of gw_backend.c's host pool (host choice for least-connection / round-robin / hash as in "
+         "gw_host_get, paired load increments/decrements, disabling on connect failure for disable-time, re-enabling by the trigger, retry bound): for "
+         "every interleaving of arrivals, connect failures, completions/aborts and ticks each host's load figure equals the number of requests in flight "
+         "on it (never negative, zero when idle), a request is dispatched or retried only to a host available at that moment, a disabled host sits out "
+         "its disable-time and returns afterwards; tied by differential correspondence against the real lighttpd (mod_proxy over three backends switched "
+         "between serving, refusing and hanging; load figures read from mod_status; re-enabling from the error log) in real time",
+    note="PARTIAL: local spawned backends with several procs, adaptive spawning, connect/read/write timeouts, sticky mode, descriptor accounting are "
+         "not modelled; the hash choice itself is not predicted (allowed-set and load checks only); a request aborted by the client stays in flight "
+         "until the backend lets go (as in lighttpd); scenarios cost ~15 s of real time each; trusted: Coq kernel, extraction, lib/srv.py, python backends",
+    technique="Coq proof over executable state-machine model + differential correspondence (extracted OCaml vs real lighttpd with switchable backends, real-time)",
+    design="5/C11"),
  "C08": dict(
     text="Coq theorem over a model regenerated from the source on every run (tools/c2v_reset.py reads the fields of struct request_st and the bodies "
          "of request_reset / request_reset_ex / request_config_reset / http_response_reset / http_response_body_clear): every field is re-initialised "
